@@ -32,7 +32,10 @@ for line in open(tsv):
         m = re.search(r"(?ims)^#+\s*why it breaks[^\n]*\n(.*?)(?=^#+\s|\Z)", notes)
         needs = m.group(1).strip() if m else "see notes.md"
     test = re.search(r"func (TestDemo\w+)", open(demo).read()).group(1)
-    pkg = dirmap[id_]
+    pkg = dirmap.get(id_)
+    if not pkg:
+        m2 = re.search(r"(?i)demo package dir:\s*`?([A-Za-z0-9_/.-]+)", notes)
+        pkg = m2.group(1).strip("/").lstrip("./") if m2 else "?"
     meta = {
         "id": id_,
         "property_broken": id_[:3],
